@@ -488,6 +488,21 @@ fn gen_c01(r: &mut Rng, t: Tier, job: u64) -> Plan {
             });
         }
     }
+    if r.chance(1, 12) {
+        // a client that waits for each reply, and commands that fill the server's read buffer
+        // exactly: the command must reach the shim without the server asking for more input
+        // first (rule `stall`: a complete command is buffered, yet the server waits)
+        let mut cmds: Vec<Cmd> = cmds.into_iter().filter(|c| matches!(c.act, Act::Program(_))).take(3).collect();
+        for _ in 0..1 + r.below(3) {
+            insert_aligned_query(r, &mut cmds);
+        }
+        let mut p = Plan::basic(cmds);
+        p.arrival = Arrival::lockstep();
+        if r.coin() {
+            p.reads = gen_reads(r);
+        }
+        return p;
+    }
     let mut p = Plan::basic(cmds);
     p.reads = gen_reads(r);
     // whole client stream available up front: only the read partition varies
@@ -528,7 +543,7 @@ pub fn c01() -> Simple {
         thorough: 4_000_000,
         budget_q: 60,
         budget_t: 700,
-        owns: &["callback-args", "callback-missing", "callback-extra", "end", "panic"],
+        owns: &["callback-args", "callback-missing", "callback-extra", "end", "panic", "stall"],
         gen: gen_c01,
         extra: None,
         assumptions: COMMON_ASSUME,
@@ -903,7 +918,13 @@ fn gen_c05(r: &mut Rng, t: Tier, job: u64) -> Plan {
     let mut cmds = gen_conv(r, &o);
     // sometimes one long response: many rows or many columns
     if r.chance(1, 6) {
-        let rows = 200 + r.usize_below(500);
+        // now and then a response whose packet count passes 2^16 (and 2 * 2^16): a counter of
+        // packets wider than the sequence byte must not saturate or truncate differently
+        let rows = if r.chance(1, 400) {
+            *r.pick(&[65_525usize, 65_533, 65_540, 131_070, 131_080]) + r.usize_below(6)
+        } else {
+            200 + r.usize_below(500)
+        };
         let unit = RowsUnit {
             cols: vec![ColSpec {
                 table: Blob::lit(b"t"),
@@ -929,6 +950,7 @@ fn gen_c05(r: &mut Rng, t: Tier, job: u64) -> Plan {
                     end: End::Implicit,
                     ret_err: None,
                     probe_cells: false,
+                    pull_params: None,
                 }),
             },
         );
@@ -960,6 +982,7 @@ fn gen_c05(r: &mut Rng, t: Tier, job: u64) -> Plan {
                     end: End::Implicit,
                     ret_err: None,
                     probe_cells: false,
+                    pull_params: None,
                 }),
             },
         );
@@ -978,7 +1001,7 @@ pub fn c05() -> Simple {
     Simple {
         id: "C05",
         decided_by: "histories x request sequence ids x response lengths",
-        rule_text: "one run = 1..9 commands whose requests start at seeded sequence ids (weighted to 0,1,127,250..255), responses of 1..700 packets; oracle: greeting id 0, i-th response packet id == (last request packet id + 1 + i) mod 256, restart per command. Distinct = plan signature (includes the request ids).",
+        rule_text: "one run = 1..9 commands whose requests start at seeded sequence ids (weighted to 0,1,127,250..255), responses of 1..700 packets (rarely just beyond 65 536 and 131 072 packets); oracle: greeting id 0, i-th response packet id == (last request packet id + 1 + i) mod 256, restart per command. Distinct = plan signature (includes the request ids).",
         quick: 200_000,
         thorough: 5_000_000,
         budget_q: 60,
@@ -1034,9 +1057,13 @@ fn gen_c12(r: &mut Rng, _t: Tier, _job: u64) -> Plan {
                     end: End::Implicit,
                     ret_err: None,
                     probe_cells: false,
+                    pull_params: None,
                 }),
             },
         );
+    }
+    if r.chance(1, 12) {
+        insert_aligned_query(r, &mut cmds);
     }
     if r.chance(1, 10) {
         // an operation on an id that is not open: whatever the server does with it, it must
